@@ -189,6 +189,8 @@ class Machine:
                 self.rel_steps[ax] = 0
             info["kind"] = "G92"
         elif motion == "G28":
+            for k in val:
+                self.params[k] = None      # remembered-or-not after homing is unspecified
             axes = list(axis_words) or list(AXES)
             for ax in axes:
                 self.known[ax] = False
